@@ -223,9 +223,12 @@ func drawModifier(t *rapid.T, w *world.World) world.M {
 		}
 		return M("type", "urns", "urns", urns, "modification", rapid.SampledFrom([]string{"append", "remove", "set"}).Draw(t, "urnmod"))
 	default:
-		if rapid.Bool().Draw(t, "channel") {
+		switch rapid.IntRange(0, 3).Draw(t, "channelk") {
+		case 0, 1:
 			ch := rapid.SampledFrom(world.Channels()).Draw(t, "channel")
 			return M("type", "channel", "channel", M("uuid", ch["uuid"], "name", ch["name"]))
+		case 2:
+			return M("type", "channel", "channel", nil) // clears the preferred channel
 		}
 		return M("type", "ticket", "topic", M("uuid", world.UUID("topic", 2), "name", "Weather"), "assignee", M("email", "bob@nyaruka.com", "name", "Bob"), "note", "help")
 	}
